@@ -255,6 +255,13 @@ impl W {
         guarded(move || st.wallet_mut().truncate_to_chain_state(state).map(|_| h).map_err(|e| format!("{e:?}")))
     }
 
+    /// `rewind_to_chain_state` with the harness chain's state as of block `target`, no birthday may be lowered
+    pub fn rewind_cs(&mut self, chain: &Chain, target: u32) -> Result<Result<(), String>, String> {
+        let state = chain.state_at(target);
+        let st = &mut self.st;
+        guarded(move || st.wallet_mut().rewind_to_chain_state(state, std::collections::HashSet::new()).map_err(|e| format!("{e:?}")))
+    }
+
     pub fn tip(&self) -> Option<u32> {
         self.st.wallet().chain_height().unwrap().map(u32::from)
     }
